@@ -40,7 +40,7 @@ for pid in ALL:
             "replay_cmd_template": "python3 tools/check.py %s --replay {path}" % pid,
             "engine": "coq",
             "level_claimed": {"category": "proof", "text": sp["level_text"], "design_ref": sp.get("design_ref", "DESIGN.md section 5")},
-            "level_note": sp["level_note"],
+            "level_note": sp["level_note"] + ((" Parts merged: " + "; ".join(sp["covers"]) + ".") if sp.get("covers") else ""),
             "technique": sp.get("technique", "machine-checked proof in Coq (Rocq) about an executable model + checked correspondence to the crate"),
         })
     else:
